@@ -789,9 +789,13 @@ class API:
             Mapping[str, MethodDescriptorProto]: A mapping of MethodDescriptorProto
                 values for the API.
         """
+        # Every generated proto counts, whatever subpackage view this is:
+        # selectors in the service YAML name methods of the whole API.
         return {
             f"{service_key}.{method_key}": method_value
-            for service_key, service_value in self.services.items()
+            for proto in self.all_protos.values()
+            if proto.file_to_generate
+            for service_key, service_value in proto.services.items()
             for method_key, method_value in service_value.methods.items()
         }
 
